@@ -102,13 +102,14 @@ def run(c, case):
         if f == 'calculate_grid_mask_bounds':
             b = call(it, fn(it, M, 'calculate_grid_mask_bounds'), mask)
             return {str(k): [conc(v.start), conc(v.stop)] for k, v in b.items()}
-        dt = {'int32': np.INT32, 'float64': np.FLOAT64}[case.get('dtype', 'float64')]
+        dt = {'int32': np.INT32, 'int16': np.INT16, 'float64': np.FLOAT64}[case.get('dtype', 'float64')]
         data = case['data']
         arr = np.asarray(data, dtype=dt)
         if dt is np.FLOAT64:
             src = arr
             arr = np.NDArray(src.shape, lambda i: np.to_float(src.fn(i)), np.FLOAT64)
-        da = XDataArray(data=arr, dims=tuple(case['dims']), name='v', attrs=dict(case.get('attrs', {})))
+        attrs = {k: (SFloat(FIN, v) if isinstance(v, float) else v) for k, v in case.get('attrs', {}).items()}
+        da = XDataArray(data=arr, dims=tuple(case['dims']), name='v', attrs=attrs)
         r = call(it, fn(it, M, 'mask_grid_data_array'), mask, da)
         return {'dims': list(r.variable.dims), 'values': arr_list(r.variable.arr), 'attrs': {k: conc(v) for k, v in r.variable.attrs.items()}}
     if f == 'face_node_array':
@@ -173,12 +174,80 @@ def close(a, b):
     return a == b
 
 
+RULE_CASES = [
+    # (name, loop body over a sequence of symbolic length, expected: 'unsupported' | 'collected' | 'events')
+    ('store into a dict from outside the loop', "for x in seq:\n    d['k'] = x\n", 'unsupported'),
+    ('store into an attribute of an object from outside the loop', "for x in seq:\n    box.last = x\n", 'unsupported'),
+    ('store into an array from outside the loop', "for x in seq:\n    arr[0] = x\n", 'unsupported'),
+    ('list mutator other than append on a list from outside the loop', "for x in seq:\n    lst.insert(0, x)\n", 'unsupported'),
+    ('variable carried from one iteration to the next', "total = 0\nfor x in seq:\n    total = total + x\n", 'unsupported'),
+    ('augmented assignment carried between iterations', "n = 0\nfor x in seq:\n    n += 1\n", 'unsupported'),
+    ('append to a list from outside the loop', "for x in seq:\n    lst.append(x + 1)\n", 'collected'),
+    ('append on some iterations only', "for x in seq:\n    if x > 3:\n        lst.append(x)\n", 'collected'),
+    ('reading a collected list afterwards', "for x in seq:\n    lst.append(x)\nn = len(lst)\n", 'unsupported'),
+    ('objects created inside the iteration may be modified', "for x in seq:\n    tmp = [x]\n    tmp.append(2)\n    m = {}\n    m['a'] = tmp\n    lst.append(m)\n", 'collected'),
+    ('nonlocal of the enclosing function rebound by a helper called in the loop',
+     "def outer():\n    count = 0\n    def bump(x):\n        nonlocal count\n        count = count + x\n    for x in seq:\n        bump(x)\n    return count\nr = outer()\n", 'unsupported'),
+    ('events only', "for x in seq:\n    rec(x)\n", 'events'),
+]
+RULE_PRELUDE = """
+class Box:
+    pass
+box = Box()
+"""
+
+
+def engine_rules():
+    """The loop rules of the executor (FOREACH frame condition, COLLECT, empty-sequence path) on small programs with a known answer."""
+    from pyvc.lib.seq import SymSeq
+    from pyvc.core import mk_int
+    bad = 0
+    for name, body, want in RULE_CASES:
+        seen = {'nonempty': [], 'empty': []}
+
+        def scenario(c, body=body, seen=seen):
+            it = new_interp()
+            n = c.fresh_int('n')
+            c.assume(n >= 0)
+            vals = c.fresh_fn('val', z3.IntSort(), z3.IntSort())
+            seq = SymSeq(n, lambda k: mk_int(vals(core.zint(k))), 'list')
+            lst = core.TList()
+            d = core.TDict()
+            arr = np.asarray([1, 2, 3])
+            events = []
+            from pyvc.interp import model
+            env = it.run_snippet('emsarray.utils', RULE_PRELUDE + body, {'seq': seq, 'lst': lst, 'd': d, 'arr': arr, 'rec': model(lambda x: c.event('rec', x))})
+            chunks, prefix = core.collected_chunks(lst)
+            empty = z3.is_true(z3.simplify(z3.And(*c.pc + [n.z == 0]) if False else z3.BoolVal(False)))
+            s = z3.Solver()
+            s.add(*[p for p in c.pc])
+            s.add(n.z > 0)
+            is_empty_path = s.check() == z3.unsat
+            kind = 'collected' if chunks else ('events' if any(e[0] == 'foreach' for e in c.events) else 'plain')
+            seen['empty' if is_empty_path else 'nonempty'].append((kind, len(prefix)))
+        res = core.explore(scenario, max_paths=50)
+        if want == 'unsupported':
+            ok = bool(res.unsupported) and not seen['nonempty']
+        else:
+            ok = not res.unsupported and seen['nonempty'] and all(k == want for k, _ in seen['nonempty']) \
+                and len(seen['empty']) == 1 and seen['empty'][0][0] == 'plain'
+        if not ok:
+            bad += 1
+            print(f'SELFCHECK-RULE-MISMATCH {name}: expected {want}, got unsupported={res.unsupported[:1]} paths={seen}')
+    print(f'SELFCHECK loop-rule cases={len(RULE_CASES)} mismatches={bad}')
+    return bad
+
+
 def main():
     seed = int(sys.argv[1]) if len(sys.argv) > 1 else 0
+    if engine_rules():
+        return 3
     with tempfile.TemporaryDirectory() as tmp:
         out = os.path.join(tmp, 'native.json')
         env = dict(os.environ, PYTHONWARNINGS='ignore')
         env.pop('PYTHONPATH', None)
+        if os.environ.get('EMSARRAY_SRC'):
+            env['PYTHONPATH'] = os.environ['EMSARRAY_SRC']       # development runs on a scratch tree: both sides read the same tree
         r = subprocess.run(['/venv/bin/python', os.path.join(ROOT, 'harness', 'selfcheck_native.py'), out, str(seed)], capture_output=True, text=True, env=env, cwd=ROOT)
         if r.returncode or not os.path.exists(out):
             print('SELFCHECK-ERROR native side failed\n' + r.stderr[-2000:])
